@@ -83,7 +83,7 @@ def locate(repo, rel, kind, owner, name):
 # declared rewrites (applied to the *source* text of one function before comparison)
 # ----------------------------------------------------------------------------------------------
 
-def rewrite_source(fn_text, rewrites):
+def rewrite_source(fn_text, rewrites, extra=None):
     """returns (rewritten text, list of applied rewrite descriptions)"""
     applied = []
     toks = R.lex(fn_text)
@@ -195,6 +195,64 @@ def rewrite_source(fn_text, rewrites):
                 edits.append((toks[i].pos, toks[i + 6].end, 'let mut %s: usize = 0; while %s < %s { %s += 1;' % (v, v, bound, v)))
         if n: applied.append('%d `for _ in 0..N` loop(s) written as while loops' % n)
         else: raise ExtractError('rewrite for2while: no `for _ in 0..N` loop found')
+    # R6: `E.into_iter().for_each(|x| { BODY });` -> `for x in E { BODY }` (Verus rejects closures that capture `&mut`).
+    #     Declared per function as `rewrites=foreach2for`. This is the definition of `Iterator::for_each` for a closure whose
+    #     body neither returns early nor uses `?`; refused unless the statement has exactly this shape, the closure parameter is
+    #     one plain identifier, the body is a block, and the body contains no `return` / `?` / `break` / `continue` / `.await`.
+    if 'foreach2for' in rewrites:
+        n = 0
+        T = [t.text for t in toks]
+        for i in range(len(toks) - 10):
+            if T[i:i + 8] == ['.', 'into_iter', '(', ')', '.', 'for_each', '(', '|'] and toks[i + 8].kind == 'id' and T[i + 9] == '|' and T[i + 10] == '{':
+                b1 = R.match_close(toks, i + 10)
+                if T[b1 + 1] != ')' or T[b1 + 2] != ';': raise ExtractError('rewrite foreach2for: unexpected shape after the closure body')
+                if any(t in ('return', '?', 'break', 'continue', 'await') for t in T[i + 11:b1]):
+                    raise ExtractError('rewrite foreach2for: the closure body leaves early')
+                # receiver: back to the start of the statement
+                j = i - 1
+                while j >= 0 and T[j] not in (';', '{', '}'):
+                    if T[j] in (')', ']'):
+                        # skip back over a bracketed group
+                        d = 0
+                        while j >= 0:
+                            if T[j] in (')', ']'): d += 1
+                            elif T[j] in ('(', '['):
+                                d -= 1
+                                if d == 0: break
+                            j -= 1
+                    j -= 1
+                r0 = j + 1
+                if r0 >= i: raise ExtractError('rewrite foreach2for: empty receiver')
+                recv = fn_text[toks[r0].pos:toks[i - 1].end]
+                x = T[i + 8]
+                edits.append((toks[r0].pos, toks[i + 10].end, 'for %s in %s {' % (x, recv)))
+                edits.append((toks[b1].pos, toks[b1 + 2].end, '}'))
+                n += 1
+        if n: applied.append('%d `E.into_iter().for_each(|x| { .. });` statement(s) written as `for x in E { .. }`' % n)
+        else: raise ExtractError('rewrite foreach2for: no `.into_iter().for_each(|x| { .. });` statement found')
+    # R7: the initialiser of ONE local is replaced by a call of an assumed (external_body) function: `let v = EXPR;` ->
+    #     `let v = CALL;`. Declared as `rewrites=absexpr:v` with `abs=CALL` and `abs_sha=<sha1[:12] of EXPR's tokens>`. EXPR is
+    #     NOT verified: it is named in the evidence as dropped text, and the assumed contract of CALL is tied to the exact
+    #     token sequence it stands for (any edit of EXPR makes the unit undecided instead of silently keeping the contract).
+    for rw in sorted(rewrites):
+        if not rw.startswith('absexpr:'): continue
+        v = rw.split(':', 1)[1]
+        call = (extra or {}).get('abs'); sha = (extra or {}).get('abs_sha')
+        if not call or not sha: raise ExtractError('rewrite absexpr:%s needs abs= and abs_sha=' % v)
+        T = [t.text for t in toks]
+        hits = [i for i in range(len(toks) - 3) if T[i] == 'let' and T[i + 1] == v and T[i + 2] == '=']
+        if len(hits) != 1: raise ExtractError('rewrite absexpr:%s: `let %s =` occurs %d times' % (v, v, len(hits)))
+        i = hits[0]; j = i + 3
+        while T[j] != ';':
+            if T[j] in ('(', '[', '{'): j = R.match_close(toks, j)
+            j += 1
+        expr_toks = T[i + 3:j]
+        import hashlib
+        got = hashlib.sha1(' '.join(expr_toks).encode()).hexdigest()[:12]
+        if got != sha:
+            raise ExtractError('rewrite absexpr:%s: the abstracted expression changed (sha %s, contract written for %s): its assumed contract may no longer describe it' % (v, got, sha))
+        edits.append((toks[i + 3].pos, toks[j - 1].end, call))
+        applied.append('initialiser of `%s` (%d tokens: `%s`) replaced by the ASSUMED contract of `%s`: that expression is NOT verified' % (v, len(expr_toks), ' '.join(expr_toks), call))
     out = fn_text
     for s, e, r in sorted(edits, reverse=True):
         out = out[:s] + r + out[e:]
@@ -386,7 +444,7 @@ def process_fn(repo, args, mirror_text):
     text, toks, it = locate(repo, rel, 'fn', owner, name)
     src_fn = fn_item_text(text, toks, it)
     rewrites = set(args.get('rewrites', '').split(',')) - {''}
-    src_fn, applied = rewrite_source(src_fn, rewrites)
+    src_fn, applied = rewrite_source(src_fn, rewrites, args)
     src_toks = R.lex(src_fn)
     try:
         mtoks = R.lex(mirror_text, markers=True)
